@@ -177,6 +177,30 @@ def run_one(cfg, decisions=None, keep_events=False):
             # itself rejects or cannot represent: not a C01 workload
             probe("illegal_workload_skipped")
             return _result(cfg, events, violations, probes, fired, None, False, keep_events)
+        # the mesh rebuilt independently of get_mesh/_pop_par_weights from the
+        # request and the distribution functions (weights.get_weights is C02's
+        # subject and trusted here): which parameters may be dispersed in this
+        # dimension, defaults, nsigma, distribution type, limits, relative width
+        active = partable.pd_2d if two_d else partable.pd_1d
+        for j, prm in enumerate(cpars):
+            value = float(pars.get(prm.name, prm.default))
+            n_, w_ = pars.get(prm.name + "_pd_n", 0), pars.get(prm.name + "_pd", 0.0)
+            if prm.polydisperse and prm.name in active and n_ and w_:
+                with np.errstate(all="ignore"):
+                    xs, ws = weights.get_weights(pars.get(prm.name + "_pd_type", "gaussian"), n_, w_,
+                                                 pars.get(prm.name + "_pd_nsigma", 3.0), value, prm.limits,
+                                                 prm.relative_pd)
+            elif prm.polydisperse:
+                xs, ws = [value if prm.relative_pd else 0.0], [1.0]
+            else:
+                xs, ws = [value], [1.0]
+            gv, gx, gw = mesh[j]
+            if not (float(gv) == value and np.array_equal(np.asarray(gx, "d"), np.asarray(xs, "d"))
+                    and np.array_equal(np.asarray(gw, "d"), np.asarray(ws, "d"))):
+                fail("A0", "parameter %s: the mesh handed to the kernel (value %r, %d points) differs from the "
+                     "distribution the request describes (value %r, %d points)"
+                     % (prm.name, float(gv), len(gx), value, len(xs)), cause="mesh_extraction")
+                return _result(cfg, events, violations, probes, fired, None, False, keep_events)
         lengths_all = [len(w) for (_, _, w) in mesh[2:npars + 2]]
         n_active = sum(1 for n in lengths_all if n > 1)
         requested = [p.name for p in cpars[2:npars + 2] if pars.get(p.name + "_pd_n", 0) and pars.get(p.name + "_pd", 0)
